@@ -579,7 +579,8 @@ func (in *instance) execPull(r Row, sel selector, emit func(Event)) (int, int) {
 			continue
 		}
 		pickV := -1
-		if sel.rotate && len(vars) > 1 {
+		// thinned mode: the canonical form always; one more spelling / method for every other (row, concretisation)
+		if sel.rotate && len(vars) > 1 && h32(fmt.Sprintf("v|%s|%d|%s|%s|%s|%s|%d|%d", r.Cfg.ID(), r.Ep, r.Form, r.Whose, r.Tr, r.Op, ci, in.opt.seed))%2 == 0 {
 			pickV = 1 + int(h32(fmt.Sprintf("%s|%d|%s|%s|%s|%s|%d|%d", r.Cfg.ID(), r.Ep, r.Form, r.Whose, r.Tr, r.Op, ci, in.opt.seed))%uint32(len(vars)-1))
 		}
 		for vi, v := range vars {
